@@ -45,6 +45,7 @@ scopes without public entry (`View._track_rendering`,
 and the scopes built on `dynamic_evaluate` (`DynamicEvaluationContext.collect/
 apply`) are outside the property text.
 """
+import copy
 import threading
 
 import pyglove as pg
@@ -177,12 +178,17 @@ class ProbeView(pg.views.View):
     pass
 
   def render(self, value, *, name=None, root_path=None, **kwargs):
-    return pg.Html(repr(sorted(kwargs.items(), key=repr)))
+    return pg.Html(repr(_canon_kw(kwargs)))
 
 
 VIEW_VALUES = {'enable_summary_tooltip': [True, False],
                'collapse_level': [0, 2, None],
                'enable_key_tooltip': [True, False]}
+# Options of the views whose values are dicts: `pg.view_options` is documented
+# to deep-merge them ("Deep merge the two dict"; utils.merge: "Later value will
+# be treated as updates if it's a dict ... The merge process will keep input
+# values intact").
+VIEW_DICT_OPTIONS = ('extra_flags', 'child_config')
 
 
 def _de_f1(hv):
@@ -387,20 +393,74 @@ _register(Manager(
 def _kw_gen(values):
   def gen(rng, env, state):
     names = rng.sample(sorted(values), rng.randint(0, 3))
-    return {'kw': {n: rng.choice(values[n]) for n in sorted(names)}}
+    # (a fresh copy: mutable values are the caller's own objects)
+    return {'kw': {n: copy.deepcopy(rng.choice(values[n])) for n in sorted(names)}}
   return gen
 
 
 def _merge_push(slot):
   def push(state, args, env):
     cur = dict(state[slot])
-    cur.update(args['kw'])
+    cur.update(copy.deepcopy(args['kw']))
     return _set(state, **{slot: cur})
   return push
 
 
+def freeze(v):
+  """Immutable, order-free copy of a (nested) option value: a snapshot must
+  not change when the library later writes into the container it returned."""
+  if isinstance(v, dict):
+    return ('dict', tuple(sorted(((k, freeze(x)) for k, x in v.items()), key=repr)))
+  if isinstance(v, (list, tuple)) and any(isinstance(x, (dict, list)) for x in v):
+    return (type(v).__name__, tuple(freeze(x) for x in v))
+  return v
+
+
 def _canon_kw(d):
-  return tuple(sorted(d.items(), key=repr))
+  return tuple(sorted(((k, freeze(v)) for k, v in d.items()), key=repr))
+
+
+def deep_merge(outer, inner):
+  """Documented deep merge of keyword options (fresh containers throughout)."""
+  out = {k: copy.deepcopy(v) for k, v in outer.items()}
+  for k, v in inner.items():
+    if isinstance(v, dict) and isinstance(out.get(k), dict):
+      out[k] = deep_merge(out[k], v)
+    else:
+      out[k] = copy.deepcopy(v)
+  return out
+
+
+def _dict_value(rng, depth=0):
+  """A non-empty dict option value: str keys, scalar or (once) nested dict values."""
+  out = {}
+  for k in rng.sample(['a', 'b', 'c', 'n'], rng.randint(1, 2)):
+    if k == 'n' and depth == 0:
+      out[k] = _dict_value(rng, 1)
+    elif k == 'n':
+      out['p'] = rng.randint(1, 3)
+    else:
+      out[k] = rng.randint(1, 3)
+  return out
+
+
+def _view_gen(rng, env, state):
+  """Scalar options as before; in half of the cases also dict-valued options
+  (the same few names at every level, so that nested scopes refine the same
+  option with other keys)."""
+  args = _kw_gen(VIEW_VALUES)(rng, env, state)
+  outer = sorted(k for k, v in state['viewopt'].items() if isinstance(v, dict))
+  if outer and rng.random() < 0.6:
+    # refine an option the enclosing scope set
+    args['kw'][rng.choice(outer)] = _dict_value(rng)
+  elif rng.random() < 0.5:
+    for name in rng.sample(VIEW_DICT_OPTIONS, rng.choice([1, 1, 2])):
+      args['kw'][name] = _dict_value(rng)
+  return args
+
+
+def _view_push(state, args, env):
+  return _set(state, viewopt=deep_merge(state['viewopt'], args['kw']))
 
 
 for _name, _fn, _slot in (('str_format', pg.str_format, 'strfmt'),
@@ -413,19 +473,19 @@ for _name, _fn, _slot in (('str_format', pg.str_format, 'strfmt'),
 
 _register(Manager(
     'thread_local_arg_scope', 'thread', 'merge',
-    _kw_gen({'p': [1, 2], 'q': [3, 4], 'r': [5, None]}),
+    _kw_gen({'p': [1, 2, {'k': 1}], 'q': [3, 4, [1, {'k': 2}]], 'r': [5, None]}),
     lambda args, env: _tl.thread_local_arg_scope(TLA_KEY, **args['kw']),
     _merge_push('tla'), yielded=lambda s, a, e: _canon_kw(s['tla']),
     slots=('tla',)))
 
 _register(Manager(
-    'view_options', 'thread', 'merge', _kw_gen(VIEW_VALUES),
-    lambda args, env: pg.view_options(**args['kw']), _merge_push('viewopt'),
+    'view_options', 'thread', 'merge', _view_gen,
+    lambda args, env: pg.view_options(**args['kw']), _view_push,
     yielded=lambda s, a, e: _canon_kw(s['viewopt']), slots=('viewopt',)))
 
 _register(Manager(
     'coding.context', 'thread', 'merge',
-    _kw_gen({n: [1, 2, 3] for n in CTX_NAMES}),
+    _kw_gen({n: [1, 2, 3, {'k': 1}] for n in CTX_NAMES}),
     lambda args, env: pg.coding.context(**args['kw']), _merge_push('codectx'),
     yielded=lambda s, a, e: _canon_kw(s['codectx']), slots=('codectx',)))
 
@@ -972,7 +1032,7 @@ _obs('viewopt.scope', 'view_options', 'getter', _view_get,
      lambda st, env: _canon_kw(st['viewopt']))
 _obs('viewopt.view-kwargs', 'view_options', 'behaviour',
      lambda env: pg.view(1, view_id=ProbeView.VIEW_ID).content,
-     lambda st, env: repr(sorted(st['viewopt'].items(), key=repr)))
+     lambda st, env: repr(_canon_kw(st['viewopt'])))
 
 
 def _html_expect(st, env):
@@ -991,8 +1051,9 @@ _obs('codectx.getter', 'coding.context', 'getter',
      lambda env: _canon_kw(pg.coding.get_context()),
      lambda st, env: _canon_kw(st['codectx']))
 _obs('codectx.evaluate', 'coding.context', 'behaviour',
-     lambda env: tuple(_outcome(lambda n=n: pg.coding.evaluate(n))[1] for n in CTX_NAMES),
-     lambda st, env: tuple(st['codectx'].get(n, 'CodeError') for n in CTX_NAMES))
+     lambda env: tuple(freeze(_outcome(lambda n=n: pg.coding.evaluate(n))[1])
+                       for n in CTX_NAMES),
+     lambda st, env: tuple(freeze(st['codectx'].get(n, 'CodeError')) for n in CTX_NAMES))
 _obs('perm.getter', 'coding.permission', 'getter',
      lambda env: (lambda p: None if p is None else p.value)(pg.coding.get_permission()),
      lambda st, env: st['perm'])
